@@ -1,3 +1,6 @@
 import RpcVerif.Model.Basic
 import RpcVerif.Model.Varint
 import RpcVerif.Model.Wire
+import RpcVerif.Model.Proto
+import RpcVerif.Props.C07
+import RpcVerif.Props.C08
